@@ -543,6 +543,20 @@ def _():
     return G.emit_strings('p_shapes', rows, 'shape / dtype call sites (pinned shape)')
 
 
+@item('p_gumbel')
+def _():
+    """stochastic sampling dataflow (pinned shape)"""
+    rows = ['gumbel_noise:' + ast.unparse(n).replace('\n', ' ') for n in find_func(VQ, 'gumbel_noise').body]
+    rows += ['gumbel_sample:' + ast.unparse(n).replace('\n', ' ') for n in find_func(VQ, 'gumbel_sample').body]
+    rows += ['log:' + ast.unparse(return_expr(VQ, 'log'))]
+    for cls in ('EuclideanCodebook', 'CosineSimCodebook'):
+        rows.append(f'{cls}.temp:' + ast.unparse(assigned_expr(VQ, f'{cls}.forward', 'sample_codebook_temp')))
+        rows.append(f'{cls}.temp_cfg:' + ast.unparse(assigned_expr(VQ, f'{cls}.__init__', 'self.sample_codebook_temp')))
+    rows.append('vq.partial:' + ast.unparse(assigned_expr(VQ, 'VectorQuantize.__init__', 'gumbel_sample_fn')).replace('\n', ' '))
+    rows.append('vq.kwargs:' + ast.unparse(assigned_expr(VQ, 'VectorQuantize.forward', 'codebook_forward_kwargs')).replace('\n', ' '))
+    return G.emit_strings('p_gumbel', rows, 'stochastic sampling dataflow (pinned shape)')
+
+
 # =============================================================================== inventories (G4)
 for fname, cls, tag in ((VQ, 'EuclideanCodebook', 'euclid'), (VQ, 'CosineSimCodebook', 'cosine'), (VQ, 'VectorQuantize', 'vq'),
                         (FSQF, 'FSQ', 'fsq'), (LFQF, 'LFQ', 'lfq'), (SIMVQ, 'SimVQ', 'simvq'), (RPQ, 'RandomProjectionQuantizer', 'rpq'),
